@@ -48,6 +48,8 @@ FORMS = {
                         (["extra_filetypes:", "    c //", "    sh # bash"], [{"extension": "c", "comment": "//"}, {"extension": "sh", "comment": "#", "lexer": "bash"}],
                          "EFT:c|//|None;sh|#|bash"),
                         (["extra_filetypes:", "    c //"], [{"extension": "c", "comment": "//"}], "EFT:c|//|None"),
+                        (["extra_filetypes: .inc ! fortran.FortranLexer"], [{"extension": ".inc", "comment": "!", "lexer": "fortran.FortranLexer"}],
+                         "EFT:.inc|!|fortran.FortranLexer"),
                         (["extra_filetypes: "], [], "EFT:")],
     "extra_mods": [(["extra_mods: json_module: http://x.org"], {"json_module": "http://x.org"}, "EM:json_module=http://x.org"),
                    (["extra_mods:", "    json_module: http://x.org", "    futil: http://y.org"], {"json_module": "http://x.org", "futil": "http://y.org"},
